@@ -119,7 +119,7 @@ func isRoundImagesAppend(f *types.Func) bool {
 }
 
 func checkC03(r *core.Run) {
-	r.Explain = "Decided statically: (C03.everyexec) every live AT executor that appends images to the transaction context reaches its append only through the nil-error edge of an image step that stores a lock key built by the lock-key builder from the image it returns, on every path that returns a non-nil image; (C03.format) all lock-key builders use exactly ':' after the table, '_' between key parts, ',' between rows and take the key order from TableMeta.GetPrimaryKeyOnlyName, and the register step joins keys with ';'; (C03.sendall) the register step loops over all collected lock keys without break/continue/return and stores the joined text into BranchRegisterParam.LockKeys before BranchRegister, guarded only by the AT-mode test; (C03.sfu) the select-for-update executor returns rows only after LockQuery answered (true,nil) and rolls back (savepoint or transaction) before returning an error once the business query ran. NOT decided: that the key set equals the rows the statement really changed (database effects), key text for every value type, interleavings of two transactions."
+	r.Explain = "Decided statically: (C03.pure) no function of a live AT executor consults package-level state that request paths mutate (lock keys and images depend on the statement and the rows only); (C03.everyexec) every live AT executor that appends images to the transaction context reaches its append only through the nil-error edge of an image step that stores a lock key built by the lock-key builder from the image it returns, on every path that returns a non-nil image; (C03.format) all lock-key builders use exactly ':' after the table, '_' between key parts, ',' between rows and take the key order from TableMeta.GetPrimaryKeyOnlyName, and the register step joins keys with ';'; (C03.sendall) the register step loops over all collected lock keys without break/continue/return and stores the joined text into BranchRegisterParam.LockKeys before BranchRegister, guarded only by the AT-mode test; (C03.sfu) the select-for-update executor returns rows only after LockQuery answered (true,nil) and rolls back (savepoint or transaction) before returning an error once the business query ran. NOT decided: that the key set equals the rows the statement really changed (database effects), key text for every value type, interleavings of two transactions."
 	r.Trusted = []string{"go/types, go/cfg", "CHA over repository types"}
 	w := r.W
 	fld := lockKeysField(w)
@@ -129,6 +129,16 @@ func checkC03(r *core.Run) {
 		return
 	}
 	r.Fn(dispatch)
+	{
+		var ex []*core.FuncInfo
+		for _, t := range live {
+			if m := methodInfo(w, t, "ExecContext"); m != nil {
+				ex = append(ex, m)
+			}
+		}
+		pureOfRuntimeState(r, "C03.pure", "the executor (images, lock keys)", append(ex, reachFrom(w, ex, pExecAT)...), nil)
+		r.Floor("C03.pure", 20)
+	}
 	assignTags := func(pkg *packages.Package, as *ast.AssignStmt) []flow.Tag {
 		if isLockKeyStore(pkg.TypesInfo, as, fld) != nil {
 			return []flow.Tag{"lockstore"}
